@@ -239,7 +239,7 @@ func constantInt(k int64) constant.Value { return constant.MakeInt64(k) }
 // paramEstablished: x is a parameter and every (static) call site passes a value whose length is established there.
 func paramEstablished(c *Ctx, x ssa.Value, k int64, depth int) bool {
 	p, ok := x.(*ssa.Parameter)
-	if !ok || depth > 3 {
+	if !ok || depth > 7 { // (reader table → thunk → reader → readSize → getCount → getCount64 is five levels)
 		return false
 	}
 	fn := p.Parent()
@@ -483,6 +483,17 @@ func leadsToErrorReturn(c *Ctx, b *ssa.BasicBlock) bool {
 		for _, in := range x.Instrs {
 			if mi, ok := in.(*ssa.MakeInterface); ok && c.isRespErr(mi.X.Type()) {
 				return true
+			}
+			// … or reports "not valid" to its caller: a return whose boolean result is the constant false (or a non-nil
+			// error constant) — a validation phase split off into a helper
+			if ret, ok := in.(*ssa.Return); ok {
+				for _, r := range ret.Results {
+					if k, isC := r.(*ssa.Const); isC && k.Value != nil {
+						if b, isB := r.Type().Underlying().(*types.Basic); isB && b.Kind() == types.Bool && k.Value.String() == "false" {
+							return true
+						}
+					}
+				}
 			}
 		}
 		stack = append(stack, x.Succs...)
